@@ -264,7 +264,7 @@ def cast_then_bitwise(fxx, scope):
     return out
 
 
-def to_string_rule(fx, ck, scope, printer_root="value::number_to_string"):
+def to_string_rule(fx, ck, scope, printer_root="value::number_to_string", rule_id="R5.one-printer"):
     """R5 (second half): `n.to_string()` on an f64 is the same second printer as `format!("{}", n)`; anywhere in the compiler or the
     interpreter a script number that becomes text (a property name, a string value) goes through value::number_to_string."""
     cone = set()
@@ -294,9 +294,9 @@ def to_string_rule(fx, ck, scope, printer_root="value::number_to_string"):
                 continue
             n += 1
             ok = top in cone
-            ck.instance("R5.one-printer", "%s: f64::to_string()" % f.path, F.short_span(t[6]), ok=ok)
+            ck.instance(rule_id, "%s: f64::to_string()" % f.path, F.short_span(t[6]), ok=ok)
             if not ok:
-                ck.finding("R5.one-printer", "R5.one-printer/%s/to_string" % top, F.short_span(t[6]),
+                ck.finding(rule_id, "%s/%s/to_string" % (rule_id, top), F.short_span(t[6]),
                            "`%s` turns a number into text with Rust's `to_string()` instead of value::number_to_string: from 1e21 and below 1e-6 the "
                            "two spell the number differently (`({ get 1e21() {..} })` defines a property named '1000000000000000000000')" % top)
     return n
